@@ -28,6 +28,7 @@
 #include <sys/utsname.h>
 #include <sys/resource.h>
 #include <locale.h>
+#include <sys/file.h>
 #include <alloca.h>
 #include <pthread.h>
 #include <linux/sched.h>
@@ -400,6 +401,12 @@ static size_t run_line(size_t pc, int in_child, int *stop) {
     } else if (!strcmp(c, "name")) { if (ntok > 1 && !strcmp(tok[1], "-")) prctl(PR_SET_NAME, ""); else { unsigned char *a = unhex(tok[1], &n); prctl(PR_SET_NAME, a); free(a); }
     } else if (!strcmp(c, "snapnow")) { opf("{\"ev\":\"snapnow\",\"label\":\"%s\",", ntok > 1 ? tok[1] : ""); snapshot("snap"); opf("}\n"); oflush();
     } else if (!strcmp(c, "sigblock")) { sigset_t s; sigemptyset(&s); sigaddset(&s, atoi(tok[1])); sigprocmask(SIG_BLOCK, &s, NULL);
+    } else if (!strcmp(c, "flockhold")) {                           /* somebody (a log shipper, a rotation job) holds an exclusive flock on the file for good */
+        unsigned char *a = unhex(tok[1], &n); int lf = open((char *) a, O_RDWR | O_CREAT | O_CLOEXEC, 0666); if (lf < 0 || flock(lf, LOCK_EX | LOCK_NB)) opf("{\"ev\":\"error\",\"what\":\"flockhold: %s\"}\n", strerror(errno)); free(a);
+    } else if (!strcmp(c, "sigactions")) {                          /* handlers installed with sigaction(): non-default flags and a non-empty mask, which signal() cannot save */
+        struct sigaction sa; memset(&sa, 0, sizeof sa); sa.sa_handler = onsig; sa.sa_flags = SA_NODEFER | SA_RESETHAND * 0 | SA_NOCLDSTOP;
+        sigemptyset(&sa.sa_mask); sigaddset(&sa.sa_mask, SIGHUP); sigaddset(&sa.sa_mask, SIGWINCH);
+        int sl[] = { SIGPIPE, SIGUSR1, SIGTERM, SIGALRM, SIGXFSZ, SIGIO }; for (size_t i = 0; i < sizeof sl / sizeof sl[0]; i++) sigaction(sl[i], &sa, NULL);
     } else if (!strcmp(c, "sighandlers")) { for (int s = 1; s < 32; s++) if (s != SIGKILL && s != SIGSTOP && s != SIGCHLD && s != SIGSEGV && s != SIGBUS && s != SIGILL && s != SIGFPE && s != SIGABRT) signal(s, onsig);
     } else if (!strcmp(c, "path")) { free(cur.path); cur.path = unhex(tok[1], &n);
     } else if (!strcmp(c, "argv") || !strcmp(c, "envp")) {
